@@ -449,7 +449,8 @@ def mask_inside_enclosing_box(points: np.ndarray, vertices: np.ndarray) -> np.nd
     xmax, ymax, zmax = np.max(vertices, axis=0)
     x, y, z = points.T
 
-    eps = 1e-12
+    # tolerance relative to the box size, so that the result does not depend on the length unit
+    eps = 1e-12 * max(xmax - xmin, ymax - ymin, zmax - zmin)
     mx = (x < xmax + eps) & (x > xmin - eps)
     my = (y < ymax + eps) & (y > ymin - eps)
     mz = (z < zmax + eps) & (z > zmin - eps)
